@@ -31,7 +31,7 @@ from ..core import viol, exc_site, Inconclusive, TMP_ROOT
 
 LEVEL = "fault_enumeration"
 EXHAUSTIVE = True
-RULE = ("per configuration (FCN|QRES x {plain, inverse-problem Parameter, adaptive weights, both} x "
+RULE = ("per configuration (FCN|QRES x {plain, inverse-problem Parameter, adaptive weights, both, two separate networks} x "
         "{SGD+momentum, Adam, RMSprop+momentum} x {no scheduler, StepLR frequency 1, StepLR frequency 2, ExponentialLR "
         "frequency 3}; static grid samplers) the interruption space {(k, N, c): N in the tier's set, c in {1,2,3}, "
         "k in 1..N-1} is enumerated COMPLETELY: for every generated (N, c) EVERY k is crashed and resumed -- this (k, N, c) "
@@ -59,7 +59,7 @@ ASSUMPTIONS = ["sampling is deterministic (static grid samplers), as the propert
 CASE_TIMEOUT = 300
 
 MODELS = ["FCN", "QRES"]
-FEATS = ["plain", "param", "adaptive", "both"]
+FEATS = ["plain", "param", "adaptive", "both", "twonets"]
 OPTS = ["SGDm", "Adam", "RMSprop"]
 SCHEDS = [None, "StepLR", "StepLR/f2", "ExpLR/f3"]
 SCHED_SPEC = {"StepLR": {"cls": "StepLR", "args": {"step_size": 2, "gamma": 0.5}, "freq": 1},
@@ -95,6 +95,10 @@ def world_spec(cfg, seed):
         params = [{"name": "D", "init": [0.7]}]
         conds = [{"kind": "pinn", "model": 0, "res": "r_heat_D", "param": 0, "weight": 2.0, "sampler": st("inner", [3, 3])},
                  {"kind": "pinn", "model": 0, "res": "r_source", "weight": 0.5, "sampler": st("xbound", [2, 3])}]
+    elif feat == "twonets":
+        # two separate networks, one per condition (equal inner names train_conditions.<i>.module.* for different objects)
+        conds = [{"kind": "pinn", "model": 0, "res": "r_heat", "weight": 2.0, "sampler": st("inner", [3, 3])},
+                 {"kind": "pinn", "model": 1, "res": "r_source", "weight": 0.5, "sampler": st("xbound", [2, 3])}]
     elif feat == "adaptive":
         conds = [{"kind": "adaptive", "model": 0, "res": "r_source", "weight": 1.5, "sampler": st("inner", [3, 3])},
                  {"kind": "pinn", "model": 0, "res": "r_lap", "weight": 0.5, "sampler": st("inner", [2, 3])}]
@@ -112,7 +116,10 @@ def world_spec(cfg, seed):
     if cfg["sched"]:
         opt["sched"] = {k: (dict(v) if isinstance(v, dict) else v) for k, v in SCHED_SPEC[cfg["sched"]].items()}
     hidden = [5, 4] if cfg["model"] == "FCN" else [4]
-    return {"seed": int(seed), "models": [{"kind": cfg["model"], "hidden": hidden}], "params": params, "conds": conds,
+    models = [{"kind": cfg["model"], "hidden": hidden}]
+    if feat == "twonets":
+        models.append({"kind": cfg["model"], "hidden": hidden[::-1]})
+    return {"seed": int(seed), "models": models, "params": params, "conds": conds,
             "vals": [], "opt": opt, "trainer": {}}
 
 
@@ -143,8 +150,8 @@ def stable_world_spec(cfg, seed, counters=None):
 def gen_cases(seed, tier):
     if tier == "quick":
         chosen = []
-        for i in range(8):
-            m, f = MODELS[i % 2], FEATS[(i // 2) % 4]
+        for i in range(10):
+            m, f = MODELS[i % 2], FEATS[(i // 2) % 5]
             o = OPTS[(i + seed) % 3]
             s = SCHEDS[(i // 2 + i + seed) % 4]           # every scheduler level twice
             chosen.append({"model": m, "feat": f, "opt": o, "sched": s})
@@ -178,6 +185,8 @@ def gen_cases(seed, tier):
                         j += 1
                         cases.append({"kind": "wsave", "cfg": cfg, "N": N, "c": c, "init": init, "final": final,
                                       "target": target, "name": name, "seed": wseed})
+                        if j % 4 == 1:
+                            cases[-1]["precision"] = "64-true"
     return cases
 
 
@@ -431,7 +440,7 @@ def _sd_equal(a, b):
     if set(a) != set(b):
         return "keys differ: %s" % sorted(set(a) ^ set(b))[:4]
     for k in a:
-        if a[k].shape != b[k].shape or not torch.equal(a[k], b[k]):
+        if a[k].shape != b[k].shape or not torch.equal(a[k].double(), b[k].double()):
             d = float((a[k].double() - b[k].double()).abs().max()) if a[k].shape == b[k].shape and a[k].numel() else float("inf")
             return "%s differs by %.3g" % (k, d)
     return None
@@ -443,8 +452,11 @@ def _wsave_case(case, res, tmp):
     cfg, N, c = case["cfg"], case["N"], case["c"]
     V, C = res["viol"], res["counters"]
     spec = stable_world_spec(cfg, case["seed"], C)
+    if case.get("precision"):
+        # the Trainer converts the modules when the fit starts (after the callback was constructed)
+        spec = dict(spec, trainer=dict(spec.get("trainer", {}), precision=case["precision"]))
     mech = {"callback": "WeightSaveCallback", "feat": cfg["feat"], "opt": cfg["opt"], "model": cfg["model"],
-            "saved": case["target"]}
+            "saved": case["target"], "precision": case.get("precision", "32")}
     pick = _target(case["target"])
     name = case.get("name", "w")
     mech["name_class"] = ("dots" if name.count(".") > 1 else "dot" if "." in name else "plain") + ("+dash" if "-" in name else "")
@@ -472,6 +484,8 @@ def _wsave_case(case, res, tmp):
         w2 = W.build(spec)
         solver2 = tp.solver.Solver(w2.train, w2.val, optimizer_setting=H.optimizer_setting(spec))
         tgt = pick(w2, solver2)
+        if case.get("precision") == "64-true":
+            tgt.double()
         blob = torch.load(path, map_location="cpu")
         tgt.load_state_dict(blob)
         return {k: v.detach().clone() for k, v in tgt.state_dict().items()}
@@ -555,7 +569,7 @@ def run_case(case):
     if case["kind"] == "crash":
         cls = "crash|%s|N%d|c%d" % (cfg_name(cfg), case["N"], case["c"])
     else:
-        cls = "wsave|%s|c%d|i%d f%d|%s|%s" % (cfg_name(cfg), case["c"], case["init"], case["final"], case["target"],
+        cls = "wsave%s|%s|c%d|i%d f%d|%s|%s" % ("64" if case.get("precision") else "", cfg_name(cfg), case["c"], case["init"], case["final"], case["target"],
                                               case.get("name", "w"))
     res = {"cls": cls, "judged": 0, "nontrivial": False, "viol": [], "counters": {}}
     os.makedirs(TMP_ROOT, exist_ok=True)
